@@ -190,7 +190,7 @@ var (
 )
 
 func H_C03_step_t() {
-	vStepIDs, vStepOps, vStepTexts, vStepQueries, vStepFilter = 3, 4, 6, 6, true
+	vStepIDs, vStepOps, vStepTexts, vStepQueries, vStepFilter = 3, 3, 6, 6, true
 	H_C03_step()
 }
 
